@@ -1,4 +1,5 @@
 import MpsProofs.Echo
+import MpsProps.C06Byz
 import MpsGen.Session
 /-
   C06 — Equivocation on a broadcast round cannot split honest parties.
